@@ -1,0 +1,17 @@
+//go:build verif
+// +build verif
+
+package par1
+
+// Constructors of the staged Encoder / Decoder objects with the given
+// filesystem (see verif_hooks.go). They add no behaviour.
+
+// VerifNewEncoder is NewEncoder with the given filesystem.
+func VerifNewEncoder(io VerifFileIO, delegate EncoderDelegate, filePaths []string, volumeCount int) (*Encoder, error) {
+	return newEncoder(io, delegate, filePaths, volumeCount)
+}
+
+// VerifNewDecoder is NewDecoder with the given filesystem.
+func VerifNewDecoder(io VerifFileIO, delegate DecoderDelegate, indexFile string) (*Decoder, error) {
+	return newDecoder(io, delegate, indexFile)
+}
